@@ -33,7 +33,8 @@ def _cases(draw):
         kind = draw(st.sampled_from(["str", "tuple", "multi"]))
         words = draw(st.lists(st.sampled_from(["alpha", "beta", "x=1", "# c", "line two", "", "z", "a\tb\t", "text:  ", "dos line\r", "banner\r"]), min_size=1, max_size=4))
         gens.append({"path": draw(st.sampled_from(PATHS)), "prio": prios[i], "kind": kind, "words": words,
-                     "reload": draw(st.sampled_from([None, "systemctl reload a", "true", ""])), "safe": draw(st.booleans())})
+                     "reload": draw(st.sampled_from([None, "systemctl reload a", "true", ""])), "safe": draw(st.booleans()),
+                     "inherited": draw(st.sampled_from([0, 0, 0, 1, 2]))})
     old = {}
     for p in PATHS:
         old[p] = draw(st.sampled_from(["absent", "equal", "equal", "equal", "different", "different", "terminator", "empty", "trailing-blank", "blank-line"]))
@@ -117,6 +118,11 @@ def _make_gens(case):
                 def is_safe(self, device):
                     return g["safe"]
             G.__name__ = "G%d" % i
+            if g.get("inherited"):
+                # a site flavour of a generator: derived from it without repeating anything (priority, path, reload are inherited)
+                G = type("G%dFlavour" % i, (G,), {"__doc__": "flavour"})
+                if g["inherited"] == 2:
+                    G = type("G%dFlavourB" % i, (G,), {})
             return G(types.SimpleNamespace(flush_perf=lambda: {}))
         out.append(mk())
     return out
@@ -200,7 +206,22 @@ def check(case):
         labels.append("negative-prio")
     # ---- deploy job
     flag = {"yes": cli_args.EntireReloadFlag.yes, "no": cli_args.EntireReloadFlag.no, "force": cli_args.EntireReloadFlag.force}[case["reload"]]
-    args = types.SimpleNamespace(acl_safe=safe, entire_reload=flag)
+    # the options object as the command line builds it: the real option declarations, parsed by argparse and handed to
+    # ArgGroup.construct_from (how every annet command gets its options); 'yes' is also spelled as the bare flag and as the default
+    import argparse
+
+    class _Opts(cli_args.ArgGroup):
+        entire_reload = cli_args.opt_entire_reload
+        acl_safe = cli_args.opt_acl_safe
+    parser = argparse.ArgumentParser()
+    _Opts.attach(parser)
+    argv = ["--entire-reload", case["reload"]]
+    if case["reload"] == "yes":
+        argv = [["--entire-reload", "yes"], ["--entire-reload"], []][len(specs) % 3]
+    args = _Opts.construct_from(parser.parse_args(argv + (["--acl-safe"] if safe else [])))
+    if args.entire_reload is not flag or bool(args.acl_safe) != bool(safe):
+        raise Violation("options", f"command line {argv!r} gives entire_reload={args.entire_reload!r} (asked for {flag!r}), acl_safe={args.acl_safe!r}",
+                        {"argv": argv})
     job = PCDeployerJob(device, args)
     # what the gen step hands over: the complete plan and the safe plan (the latter legitimately empty when no winner is safe)
     full_plan = run_file_generators(list(gens), device).new_files(False)
